@@ -81,8 +81,9 @@ ATOL = {"Etot": 2e-8, "Hf": 2e-8, "e_mo": 1e-6, "gap": 1e-6, "q": 1e-6, "force":
 ZERO = {"Etot": 1e-9, "Hf": 1e-9, "e_mo": 1e-7, "gap": 1e-7, "q": 1e-7, "mixed": 1e-6}  # |fd| below: independent
 H_PAR = 1e-3  # parameter step in units of the direction (which has the parameter's own scale); pair (h, h/2)
 H_GEO = 2e-3  # Angstrom; pair (h, h/2)
-# |fd(h) - fd(h/2)| / |fd| = r is the h^2 term; after Richardson the remainder is ~r^2: r <= 1e-3 keeps it <= 1e-6
-ROUGH = 1e-3
+# stencil (2h, h, h/2): the reported error estimate |R(2h,h) - R(h,h/2)| is ~15x the remainder of the value used;
+# the finite difference is used when the estimate is below ROUGH_K x the comparison limit (remainder <= limit / 15)
+ROUGH_K = 1.0
 # second order, relative to max|H| (forces noise 1e-9..1e-8 / step 1e-3, |H|max ~ 50-100 eV/A^2); measured healthy:
 # asymmetry <= 6e-6 of its limit, |H_ad - H_fd| <= 2e-3 of its limit
 HESS_SYM = 1e-6
@@ -413,14 +414,20 @@ def _driver_batch(S, coords, learned, solver="adaptive"):
     )
 
 
-STEPS = (1.0, -1.0, 0.5, -0.5)
+STEPS = (1.0, -1.0, 0.5, -0.5, 2.0, -2.0)
+NS = len(STEPS)
 
 
 def _rich(vals, h):
-    """vals at (+h, -h, +h/2, -h/2) -> (Richardson derivative, |d(h) - d(h/2)|)."""
+    """vals at (+h, -h, +h/2, -h/2, +2h, -2h) -> (Richardson derivative from (h, h/2), error estimate).
+    The estimate is |R(2h, h) - R(h, h/2)|: the h^4 remainder of R(2h, h) is 16x that of R(h, h/2), so the
+    remainder of the value returned is about estimate / 15."""
     d1 = (vals[0] - vals[1]) / (2 * h)
     d2 = (vals[2] - vals[3]) / h
-    return (4 * d2 - d1) / 3, np.abs(d1 - d2)
+    d0 = (vals[4] - vals[5]) / (4 * h)
+    r2 = (4 * d2 - d1) / 3
+    r1 = (4 * d1 - d0) / 3
+    return r2, np.abs(r1 - r2)
 
 
 def fd_params(task):
@@ -455,7 +462,7 @@ def fd_params(task):
         obs = values_for(members)
     res = {}
     for a, nm in enumerate(names):
-        sl = slice(4 * a, 4 * a + 4)
+        sl = slice(NS * a, NS * a + NS)
         r = {}
         for oname in OUTPUTS + ("Fu",):
             d, rough = _rich(obs[oname][sl], H_PAR)
@@ -494,11 +501,11 @@ def fd_geometry(task):
         obs = {k: np.concatenate([p[k] for p in parts]) for k in parts[0]}
     else:
         obs = values_for(members)
-    dHf_u, rough_u = _rich(obs["Hf"][0:4], H_GEO)
+    dHf_u, rough_u = _rich(obs["Hf"][0:NS], H_GEO)
     rows, rough = [], 0.0
     for k in range(len(disp)):
-        sl = slice(4 * k, 4 * k + 4)
-        d, r = _rich(-obs["force"][sl].reshape(4, -1), H_GEO)  # -dF/dx_k = row k of the Hessian
+        sl = slice(NS * k, NS * k + NS)
+        d, r = _rich(-obs["force"][sl].reshape(NS, -1), H_GEO)  # -dF/dx_k = row k of the Hessian
         rows.append(d)
         rough = max(rough, float(r.max()))
     return dict(dHf_u=float(dHf_u), rough_u=float(rough_u), Hu=rows[0], H=np.array(rows[1:]) if len(rows) > 1 else None,
@@ -564,12 +571,14 @@ def judge_scalar(res, rtol, atol, zero):
     fd = res["fd"]
     if res["nonfinite"]:
         return "nonfinite", None, None
-    if res["rough"] > ROUGH * max(abs(fd), 1e-3):
-        return "rough", None, None
     if res["none"] or res["ad"] is None:
+        if res["rough"] > ROUGH_K * zero:
+            return "rough", None, None
         return ("ok-independent", 0.0, zero) if abs(fd) <= zero else ("none", abs(fd), zero)
     err = abs(res["ad"] - fd)
     lim = rtol * max(abs(res["ad"]), abs(fd)) + atol
+    if res["rough"] > ROUGH_K * lim:  # stencil not in its asymptotic regime: the oracle is not applied
+        return "rough", None, None
     return ("ok" if err <= lim else "mismatch"), err, lim
 
 
@@ -577,7 +586,7 @@ def judge_hessian(what, a, g):
     """-> (status, err, lim, detail)."""
     if g["notconverged"] or a.get("notconverged"):
         return "notconverged", None, None, ""
-    if g["rough"] > ROUGH * max(float(np.abs(g["Hu"]).max()), 1e-3):
+    if g["rough"] > ROUGH_K * (HESS_RTOL * float(np.abs(g["Hu"]).max()) + HESS_ATOL):
         return "rough", None, None, ""
     if what == "Hu":
         if a.get("Hu") is None:
